@@ -10,6 +10,7 @@ import time
 from .common import SPEC, NCPU, scratch, MachineryError
 
 JAR_CP = '/opt/veriftools/tla/tla2tools.jar:/opt/veriftools/tla/CommunityModules-deps.jar'
+TLAPS_LIB = '/opt/veriftools/tlapm/lib/tlapm/stdlib'      # TLAPS.tla, for proof modules
 
 
 class TLCResult:
@@ -177,7 +178,8 @@ def sany(files, wd=None):
     wd = wd or workdir('sany-')
     bad = []
     for f in files:
-        p = subprocess.run(['java', '-cp', JAR_CP, 'tla2sany.SANY', os.path.basename(f)],
+        p = subprocess.run(['java', '-DTLA-Library=' + TLAPS_LIB, '-cp', JAR_CP, 'tla2sany.SANY',
+                            os.path.basename(f)],
                            cwd=wd, stdout=subprocess.PIPE, stderr=subprocess.STDOUT)
         out = p.stdout.decode('utf-8', 'replace')
         if p.returncode != 0 or 'error' in out.lower().replace('errors: 0', ''):
